@@ -1098,7 +1098,7 @@ func (p *parser) extractArgs(raw []byte) []*arg {
 				a.global = GetGlobal(byteconv.B2S(a.val)) != nil
 				r = append(r, &a)
 			}
-			if a[len(a)-1] == '}' {
+			if len(a) > 0 && a[len(a)-1] == '}' {
 				nested = false
 			}
 		}
